@@ -134,6 +134,12 @@ class DavSys:
             self.world = http.ProcWorld(self.root, prefix=cfg.prefix, index_threshold=cfg.threshold)
         else:
             raise ValueError(cfg.front)
+        self.world_b = None
+        self._via_b = False
+        if "two-workers" in cfg.features:
+            # a second worker process on the same directory, requests strictly one after another
+            assert cfg.front == "wsgi"
+            self.world_b = http.WsgiWorld(self.root, prefix=cfg.prefix, index_threshold=cfg.threshold, own_cache=True)
         self.model = {
             "cal": {"kind": "calendar", "members": {}, "props": {}},
             "ab": {"kind": "addressbook", "members": {}, "props": {}},
@@ -162,6 +168,8 @@ class DavSys:
 
     def req(self, method, target, headers=None, body=b""):
         self.nreq += 1
+        if self._via_b:
+            return self.world_b.request(method, target, headers, body)
         if self.pending_fault is not None and method in ("PUT", "DELETE", "POST", "PROPPATCH", "MKCOL", "MKCALENDAR"):
             from . import sched
 
@@ -176,6 +184,8 @@ class DavSys:
         if not self.closed:
             self.closed = True
             try:
+                if self.world_b is not None:
+                    self.world_b.close()
                 self.world.close()
             finally:
                 shutil.rmtree(self.root, ignore_errors=True)
@@ -290,6 +300,10 @@ class DavSys:
             info["outcome"] = "burst:%s+%s" % (i1.get("outcome"), info.get("outcome"))
             info["success"] = bool(i1.get("success") or info.get("success"))
             return info
+        if op[0] == "b":
+            # the same request, handled by the second worker
+            op = tuple(op[1])
+            self._via_b = True
         if op[0] == "fault":
             fault_k = op[1]
             op = tuple(op[2])
@@ -406,6 +420,8 @@ class DavSys:
                         self.model[coll]["props"][pkey] = value
         elif kind == "restart":
             self.world.restart()
+            if self.world_b is not None:
+                self.world_b.restart()
             info["success"] = False
             info["status"] = 0
         elif kind == "get":
@@ -430,17 +446,36 @@ class DavSys:
             info["fault"] = self.last_fault
             info["outcome"] = "fault:" + info["outcome"]
         self.hist.append(full_op)
+        self._via_b = False
         if getattr(self, "_no_audit", False):
             return info
         self.prev_audit = prev
         audit = self.audit()
         self.recording = check
+        if self.world_b is not None:
+            self.compare_workers(full_op, audit)
         self.check(op, info, resp, prev, audit, model_before, target_coll, target_name)
         if "sync" in self.cfg.features:
             self.sync_step(op, audit)
         self.recording = True
         self.last_audit = audit
         return info
+
+    def compare_workers(self, op, audit):
+        """Both workers serve the same directory: after every request what they show must be the same."""
+        self._via_b = True
+        try:
+            audit_b = self.audit()
+        finally:
+            self._via_b = False
+        prop = sorted(self.cfg.oracles)[0] if self.cfg.oracles else "C07"
+        for coll in ("cal", "ab", "c2"):
+            oa, ob = self.observable(audit[coll]), self.observable(audit_b[coll])
+            if oa != ob:
+                fields = ("exists", "status", "tags", "props", "listing", "subs", "get")
+                diff = [f for f, x, y in zip(fields, oa, ob) if x != y]
+                self.violation(prop, "workers-disagree:%s" % "+".join(diff), "two workers on the same directory show different %s of one collection after the same history" % "/".join(diff),
+                               {"op": op, "coll": coll, "worker_a": repr(oa)[:600], "worker_b": repr(ob)[:600]})
 
     def cond_header(self, coll, name, cond, audit):
         """cond = (header, spec); spec in current|stale|other|star|<literal>"""
@@ -1109,6 +1144,8 @@ def default_ops(s):
         for pk, vals in cfg.props.get(coll, {}).items():
             for v in vals:
                 ops.append(("proppatch", coll, pk, v))
+    if "two-workers" in cfg.features:
+        ops += [("b", o) for o in ops if o[0] in ("put", "delete", "proppatch", "post", "delcoll", "mkcalendar")]
     if "burst" in cfg.features and s.model.get("cal") is not None:
         n = cfg.names["cal"]
         b = cfg.bodies["cal"]
